@@ -273,7 +273,11 @@ func (fr *frame) box(v TV, st *State) string {
 	tag := sortTag(v.S)
 	b := s.declareFun("box:"+tag, []string{v.S}, "Int")
 	u := s.declareFun("unbox:"+tag, []string{"Int"}, v.S)
-	s.assume(st, fmt.Sprintf("(and (= (%s (%s %s)) %s) (>= (%s %s) 0))", u, b, v.T, v.T, b, v.T))
+	// boxing is injective (unbox . box = id) and yields a non-negative payload: once per sort
+	if !s.declared["boxax:"+tag] {
+		s.declared["boxax:"+tag] = true
+		s.emit(fmt.Sprintf("(assert (forall ((bx %s)) (! (and (= (%s (%s bx)) bx) (>= (%s bx) 0)) :pattern ((%s bx)))))", v.S, u, b, b, b))
+	}
 	return fmt.Sprintf("(%s %s)", b, v.T)
 }
 
